@@ -424,8 +424,8 @@ class Table(Vector):
 					)
 				
 				# Replace the column at validated index
-				if not isinstance(value, Vector):
-					value = Vector(value)
+				# (a Vector is copied: the table owns its columns, the caller keeps theirs)
+				value = value.copy() if isinstance(value, Vector) else Vector(value)
 				
 				if self._underlying and len(value) != self._length:
 					raise ValueError(
@@ -444,8 +444,8 @@ class Table(Vector):
 			col_idx = column_map.get(attr) or column_map.get(attr.lower())
 			if col_idx is not None:
 				# Replace the column in _underlying
-				if not isinstance(value, Vector):
-					value = Vector(value)
+				# (a Vector is copied: the table owns its columns, the caller keeps theirs)
+				value = value.copy() if isinstance(value, Vector) else Vector(value)
 				
 				# Validate length
 				if self._underlying and len(value) != self._length:
